@@ -64,6 +64,8 @@ def lean_ty(t):
     if t == "unit":
         return "Unit"
     if isinstance(t, tuple):
+        if t[0] == "fn":
+            return " → ".join(atom(lean_ty(x)) for x in t[1] + [t[2]])
         if t[0] == "vec":
             return f"List {atom(lean_ty(t[1]))}"
         if t[0] == "opt":
@@ -76,13 +78,14 @@ def lean_ty(t):
 
 
 STRUCT_LEAN = {"QReg": "QRegG R", "CReg": "CRegG", "VReg": "VRegG", "SingleOp": "SingleOp R", "BitsIter": "BitsIterG",
-               "Atom": "Atom R", "ExtOp": "ExtOpG R", "Sep": "Sep"}
+               "Atom": "Atom R", "ExtOp": "ExtOp R", "Sep": "Sep"}
 STRUCT_FIELDS = {
     "QReg": [("psi", ("vec", "C")), ("q_num", "N"), ("q_mask", "N")],
     "CReg": [("value", "N"), ("q_num", "N"), ("q_mask", "N")],
     "SingleOp": [("act", "N"), ("ctrl", "N"), ("func", ("struct", "Atom"))],
     "BitsIter": [("bits", "N"), ("pos", "N")],
     "VReg": [("bits", ("vec", "N"))],
+    "ExtOp": [("blocks", ("vec", ("tup", [("vec", ("struct", "SingleOp")), ("struct", "Sep")]))), ("tail", ("vec", ("struct", "SingleOp")))],
 }
 MULTIOP = ("vec", ("struct", "SingleOp"))
 
@@ -257,6 +260,8 @@ class Emitter:
         t = re.sub(r"^&(mut)?", "", t)
         t = re.sub(r"^(super|crate|self)::", "", t)
         t = re.sub(r"^(register|operator|math|bits_iter)::", "", t)
+        if t == "F":
+            return ("fn", ["N"], "bool")
         simple = {"N": "N", "usize": "N", "u8": "u8", "u32": "u32", "i32": "i32", "Z": "Z", "isize": "Z", "bool": "bool", "R": "R",
                   "f64": "R", "C": "C", "Self::Item": "N", "Self::Output": "N"}
         if t in simple:
@@ -267,6 +272,8 @@ class Emitter:
             return self.self_struct if isinstance(self.self_struct, tuple) and self.self_struct[0] != "struct" else self.self_struct
         if t in ("CReg", "VReg", "SingleOp", "BitsIter"):
             return ("struct", t)
+        if t == "Self" and False:
+            pass
         if t in ("MultiOp", "Op") and self.tr.generic_op_is_multi or t == "MultiOp":
             return MULTIOP
         m = re.fullmatch(r"(?:Vec|VecDeque)<(.*)>", t)
@@ -369,6 +376,8 @@ class Emitter:
 
     def path(self, segs, env, want):
         if len(segs) == 1 and segs[0] in env:
+            if env[segs[0]][0] == "ALIAS":
+                return self.ex(env[segs[0]][1], env[segs[0]][2], want)
             return env[segs[0]]
         last = segs[-1]
         if last == "C_ZERO":
@@ -387,7 +396,7 @@ class Emitter:
                 self.fail("None without a known type")
             return f"(none : {lean_ty(want)})", want
         if segs[-2:] == ["Sep", "Nop"]:
-            return "Sep.Nop", ("struct", "Sep")
+            return "Sep.nop", ("struct", "Sep")
         self.fail(f"unknown name {'::'.join(segs)}")
 
     def field(self, e, env):
@@ -508,6 +517,8 @@ class Emitter:
                 # a shift count >= the width is a panic (debug) / masked (release); callers stay below
                 return f"({a} >>> {b})", ta
             return f"(shlW {INT_BITS[ta]} {atom(a)} {atom(b)})", ta
+        if op == "*" and ta == MULTIOP and tb == MULTIOP:
+            return f"({a} ++ {b})", MULTIOP         # Mul / MulAssign for MultiOp: queue concatenation (multi_mul_assign)
         if op in ("+", "-", "*", "/", "%"):
             if ta == tb and ta in ("R", "C") and op != "%":
                 return f"({a} {op} {b})", ta
@@ -732,6 +743,8 @@ class Emitter:
             sig = self.tr.method("MultiOp", name)
             if sig is not None and not sig.muts:
                 return self.apply_sig(sig, [(v, t)] + [self.ex(a, env, pt) for a, (pn, pt) in zip(args, sig.params[1:])], env)
+        if t == ("struct", "BitsIter") and name == "collect" and not args:
+            return f"(bitsCollect bitsFuel {atom(v)}).getD []", ("vec", "N")
         if isinstance(t, tuple) and t[0] == "struct":
             if name == "clone" and not args:
                 return v, t
@@ -822,6 +835,11 @@ class Emitter:
             return f"some {atom(v)}", ("opt", t)
         if (segs == ["Self"] and self.self_struct == MULTIOP or segs == ["MultiOp"]) and len(args) == 1:
             return self.ex(args[0], env, MULTIOP)
+        if last == "VReg" and len(args) == 2:
+            b, tb = self.ex(args[1], env, ("vec", "N"))
+            if tb != ("vec", "N"):
+                self.fail("VReg(.., bits) with a non-list")
+            return f"({{ bits := {b} }} : VRegG)", ("struct", "VReg")
         if segs[-2:] == ["MultiOp", "default"] and not args:
             return "([] : List (SingleOp R))", MULTIOP
         if last == "with_capacity" and segs[-2] in ("Vec", "VecDeque") and len(args) == 1:
@@ -970,6 +988,8 @@ class Emitter:
             if t[0] in ("if", "iflet", "match") and self.escapes(t):
                 return self.control(t, env, k, want, is_tail=True)
             if t[0] == "if" and t[2][2] is None:
+                return self.control(t, env, lambda env2, v: k(env2, None), want, is_tail=False)
+            if t[0] == "iflet":
                 return self.control(t, env, lambda env2, v: k(env2, None), want, is_tail=False)
             if t[0] == "if" and t[3] is not None and (t[2][1] or (t[3][0] == "block" and t[3][1]) or t[3][0] == "if"):
                 return self.control(t, env, k, want, is_tail=True, dup=True)
@@ -1143,6 +1163,41 @@ class Emitter:
             self.fail("let without initialiser")
         want = self.ty_of_text(ty) if ty else None
         e0 = unparen(e)
+        # `let Op(ref mut a, ref mut b) = self;` : names for the two fields of an ExtOp place
+        if pat[0] == "ppath" and pat[1] == ["Op"] and pat[2] is not None and len(pat[2]) == 2:
+            if all(p[0] == "pidref" for p in pat[2]):
+                vt = self.ex(e0, env)
+                if vt[1] != ("struct", "ExtOp"):
+                    self.fail("Op(..) pattern against a non-ExtOp value")
+                env = dict(env)
+                for i, p in enumerate(pat[2]):
+                    env[p[1]] = ("ALIAS", ("field", e0, str(i)), dict(env))
+                return cont(env)
+            if all(p[0] == "pid" for p in pat[2]) and e0[0] == "call" and unparen(e0[1])[0] == "path" and unparen(e0[1])[1][-2:] == ["mem", "take"]:
+                src = e0[2][0]
+                v, t = self.ex(src, env)
+                if t != ("struct", "ExtOp"):
+                    self.fail("Op(..) pattern against a non-ExtOp value")
+                env2 = dict(env)
+                lets = []
+                for i, p in enumerate(pat[2]):
+                    fld = "blocks" if i == 0 else "tail"
+                    n = lname(p[1])
+                    lets.append(f"let {n} := {atom(v)}.{fld}")
+                    env2[p[1]] = (n, dict(STRUCT_FIELDS["ExtOp"])[fld])
+                # `mem::take` leaves the default value behind
+                return self.wrap_lets(lets, self.set_place(src, "({ blocks := [], tail := [] } : ExtOp R)", env2, cont))
+            self.fail("Op(..) pattern")
+        if e0[0] == "call" and unparen(e0[1])[0] == "path" and unparen(e0[1])[1][-2:] == ["mem", "replace"] and len(e0[2]) == 2 and pat[0] == "pid":
+            place, newv = e0[2]
+            old, told = self.ex(place, env)
+            nv, tnv = self.ex(newv, env, told)
+            if tnv != told:
+                self.fail("mem::replace with a value of another type")
+            n = lname(pat[1])
+            tmpn = self.gensym("new")
+            env2 = dict(env); env2[pat[1]] = (n, told)
+            return self.wrap_lets([f"let {tmpn} := {nv}", f"let {n} := {old}"], self.set_place(place, tmpn, env2, cont))
         # random draw -> input
         if "thread_rng" in repr(e0) and contains(e0, ("mcall",)) and "sample" in repr(e0):
             if pat[0] != "pid":
@@ -1209,6 +1264,8 @@ class Emitter:
         if place[0] == "path" and len(place[1]) == 1:
             if place[1][0] not in env:
                 self.fail(f"assignment to unknown {place[1][0]}")
+            if env[place[1][0]][0] == "ALIAS":
+                return self.place_path(env[place[1][0]][1], env[place[1][0]][2])
             return place[1][0], []
         if place[0] == "field":
             r, p = self.place_path(place[1], env)
@@ -1239,6 +1296,9 @@ class Emitter:
                 lf = key
                 if t[1] == "VReg" and key == "1":
                     lf, ft = "bits", ("vec", "N")
+                elif t[1] == "ExtOp" and key in ("0", "1"):
+                    lf = "blocks" if key == "0" else "tail"
+                    ft = fs[lf]
                 elif key in fs:
                     ft = fs[key]
                 else:
@@ -1358,6 +1418,9 @@ class Emitter:
                 lf, ft = key, fs.get(key)
                 if t[1] == "VReg" and key == "1":
                     lf, ft = "bits", ("vec", "N")
+                if t[1] == "ExtOp" and key in ("0", "1"):
+                    lf = "blocks" if key == "0" else "tail"
+                    ft = fs[lf]
                 if ft is None:
                     self.fail(f"unknown field .{key}")
                 inner = self.update_raw(f"{atom(cur)}.{lf}", ft, path[1:], newval)
@@ -1447,7 +1510,16 @@ class Emitter:
                     visit_expr(e[3], local)
                 return
             if e[0] == "iflet":
-                visit_expr(e[2], local); visit_block(e[3], local)
+                visit_expr(e[2], local)
+                sc = unparen(e[2])
+                if sc[0] == "mcall" and sc[2] == "back_mut":
+                    try:
+                        r, p = self.place_path(sc[1], {**env, **{l: (l, None) for l in local}})
+                        if r not in local and r not in out:
+                            out.append(r)
+                    except Unsupported:
+                        pass
+                visit_block(e[3], set(local) | {n[1] for n in walk(e[1]) if isinstance(n, tuple) and n and n[0] == "pid"})
                 if e[4] is not None:
                     visit_expr(e[4], local)
                 return
@@ -1668,7 +1740,53 @@ class Emitter:
         self.fail("match statement")
 
     def iflet(self, e, env, k, want, is_tail):
-        self.fail("if let")
+        """`if let Some((x, Sep::Nop)) = V.back_mut() { A } else { B }`: A may update the last element through x"""
+        _, pat, scrut, then, els = e
+        scrut = unparen(scrut)
+        if not (scrut[0] == "mcall" and scrut[2] == "back_mut" and not scrut[3]):
+            self.fail("if let on something else than .back_mut()")
+        if not (pat[0] == "ppath" and pat[1] == ["Some"] and pat[2] and len(pat[2]) == 1 and pat[2][0][0] == "ptuple"
+                and len(pat[2][0][1]) == 2 and pat[2][0][1][0][0] == "pid" and pat[2][0][1][1] == ("ppath", ["Sep", "Nop"], None)):
+            self.fail("if let pattern is not Some((name, Sep::Nop))")
+        if self.escapes(e) or is_tail and then[2] is not None:
+            self.fail("if let with a value / control-flow escape")
+        vec = scrut[1]
+        v, t = self.ex(vec, env)
+        if t != dict(STRUCT_FIELDS["ExtOp"])["blocks"]:
+            self.fail("back_mut() of something else than the block queue")
+        x = pat[2][0][1][0][1]
+        # variables assigned by either branch (the bound element excluded)
+        env_then = dict(env); env_then[x] = (lname(x), MULTIOP)
+        roots = [r for r in self.assigned_roots(then, env_then) if r != x]
+        vroot, _ = self.place_path(vec, env)
+        if vroot not in roots:
+            roots.append(vroot)
+        if els is not None:
+            eb = els if els[0] == "block" else ("block", [("expr", els)], None)
+            for r in self.assigned_roots(eb, env):
+                if r not in roots:
+                    roots.append(r)
+        tys = [env[r][1] for r in roots]
+        saved = self.pending; self.pending = []
+        def then_k(env2, _v):
+            # write the (possibly updated) element back as the last entry
+            return self.set_place(vec, f"List.dropLast {atom(self.ex(vec, env2)[0])} ++ [({env2[x][0]}, Sep.nop)]", env2,
+                                  lambda env3: (self.pack_state(roots, env3), None))
+        a, _ = self.stmts(then[1] + ([("expr", then[2])] if then[2] is not None else []), None, env_then, then_k)
+        if els is None:
+            b = self.pack_state(roots, env)
+        else:
+            eb = els if els[0] == "block" else ("block", [("expr", els)], None)
+            b, _ = self.stmts(eb[1] + ([("expr", eb[2])] if eb[2] is not None else []), None, dict(env),
+                              lambda env2, _v: (self.pack_state(roots, env2), None))
+        if self.pending:
+            self.fail("panicking expression inside if let")
+        self.pending = saved
+        m = self.gensym("m")
+        env2 = dict(env)
+        lets = [f"let {m} := match List.getLast? {atom(v)} with | some ({lname(x)}, Sep.nop) => {a} | _ => {b}"]
+        self.unpack_state(m, roots, tys, env2, lets)
+        return self.with_pending(lambda: self.wrap_lets(lets, k(env2, None)))
 
     # ---- loops
     loop_handlers = []
@@ -1839,6 +1957,17 @@ class Translator:
         if sig.muts:
             self.mut_method_names.add(rust)
 
+    def scratch_cell(self, body):
+        """virtl.rs returns a reference to a value by parking it in the register's scratch cell:
+        `self.0.replace(X); unsafe { self.0.as_ptr().as_ref().unwrap() }` denotes X"""
+        st, tail = body[1], body[2]
+        if tail is not None and tail[0] == "unsafe" and st and st[-1][0] == "expr":
+            e = unparen(st[-1][1])
+            want_tail = ("unsafe", ("block", [], ("mcall", ("mcall", ("mcall", ("field", ("path", ["self"]), "0"), "as_ptr", []), "as_ref", []), "unwrap", [])))
+            if e[0] == "mcall" and e[2] == "replace" and e[1] == ("field", ("path", ["self"]), "0") and len(e[3]) == 1 and strip_parens(tail) == want_tail:
+                return ("block", st[:-1], e[3][0])
+        return body
+
     def translate_fn(self, toks, file, rust, lean, struct=None, impl=None, fuel=None, nth=0, ret_override=None, doc=None, param_types=None):
         self.cur_lean = lean
         if fuel:
@@ -1846,6 +1975,7 @@ class Translator:
         where = f"{file}::{rust}"
         try:
             params, ret, body = find_fn(toks, rust, impl=impl, nth=nth)
+            body = self.scratch_cell(body)
             self_ty = MULTIOP if struct == "MultiOp" else (("struct", struct) if struct else None)
             em = Emitter(self, where, self_ty)
             env, ps, muts = {}, [], []
@@ -1939,6 +2069,7 @@ HEADER = '''/- GENERATED by tools/rs2lean2.py from /repo — do not edit.
 Every definition is a mechanical translation of the named Rust function (current working tree). -/
 import Qvnt.Generated.Kernels
 import Qvnt.Model.RustStd
+import Qvnt.Model.Interp
 
 set_option linter.unusedVariables false
 
@@ -1998,6 +2129,28 @@ def struct_fields(toks, name):
                     p.eat()
             return out
     raise Unsupported(f"struct {name} not found")
+
+
+def struct_fields_tuple(toks, name):
+    """field types of a tuple struct `struct name(pub T0, pub T1);`"""
+    from rsparse import Parser
+    for i in range(len(toks) - 2):
+        if toks[i] == ("id", "struct") and toks[i + 1] == ("id", name) and toks[i + 2][1] == "(":
+            p = Parser(toks, i + 3)
+            out = []
+            while not p.at(")"):
+                p.skip_attrs()
+                if p.at("pub"):
+                    p.eat()
+                    if p.at("("):
+                        while not p.at(")"):
+                            p.eat()
+                        p.eat(")")
+                out.append(p.parse_type(stop=(",", ")")))
+                if p.at(","):
+                    p.eat()
+            return out
+    raise Unsupported(f"tuple struct {name} not found")
 
 
 def emit_struct(tr, toks, file, rust, key, lean, typarams=""):
@@ -2085,6 +2238,27 @@ def main():
         T(t, "register/class.rs", "mul_assign", "creg_mul_assign", struct="CReg", impl=r"impl MulAssign for Reg")
     group("register/class.rs", creg)
 
+    # ---- register/virtl.rs
+    def virtl(t):
+        fs = struct_fields_tuple(t, "Reg")
+        if [f.replace(" ", "") for f in fs] != ["Ptr<N>", "Vec<N>"]:
+            raise Unsupported(f"struct virtl::Reg has fields {fs}")
+        tr.out.append("/-- `register/virtl.rs`: `struct Reg(Ptr<N>, Vec<N>)`; the scratch cell is not state -/\nstructure VRegG where\n  bits : List Nat\n")
+        T(t, "register/virtl.rs", "new_with_mask", "vreg_new_with_mask", struct="VReg")
+        T(t, "register/virtl.rs", "new", "vreg_new", struct="VReg")
+        T(t, "register/virtl.rs", "index", "vreg_index", struct="VReg", impl=r"impl Index < N > for Reg")
+        T(t, "register/virtl.rs", "index", "vreg_index_by", struct="VReg", impl=r"impl < F > Index < F > for Reg .*")
+    group("register/virtl.rs", virtl)
+
+    # ---- qasm/int/ext_op.rs (the model's record type is used for the queue: its two fields are the tuple fields)
+    def extop(t):
+        fs = struct_fields_tuple(t, "Op")
+        if [f.replace(" ", "") for f in fs] != ["VecDeque<(MultiOp,Sep)>", "MultiOp"]:
+            raise Unsupported(f"struct Op has fields {fs}")
+        T(t, "qasm/int/ext_op.rs", "push", "extop_push", struct="ExtOp", impl=r"impl Op")
+        T(t, "qasm/int/ext_op.rs", "append", "extop_append", struct="ExtOp", impl=r"impl Op")
+    group("qasm/int/ext_op.rs", extop)
+
     # ---- register/quant.rs
     tr.register("operator", "x", S("Op.x", [("a_mask", "N")], MULTIOP))
     def quant(q):
@@ -2097,6 +2271,8 @@ def main():
         T(q, "register/quant.rs", "apply", "quant_apply", struct="QReg", impl=r"impl Reg")
         tr.generic_op_is_multi = False
         T(q, "register/quant.rs", "reset_by_mask", "quant_reset_by_mask", struct="QReg", impl=r"impl Reg")
+        T(q, "register/quant.rs", "get_vreg", "quant_get_vreg", struct="QReg", impl=r"impl Reg")
+        T(q, "register/quant.rs", "get_vreg_by", "quant_get_vreg_by", struct="QReg", impl=r"impl Reg")
     group("register/quant.rs", quant)
     # twins table
     text = "\n".join(out + tr.out)
